@@ -70,7 +70,186 @@ pub fn gen_requests(rng: &mut Rng, n: u64, out: &mut Out) -> Vec<String> {
     req
 }
 
+// ---------------------------------------------------------------------------------------------------------
+// end-to-end leg: the same model (an index over "::"-paths) against `set_breakpoint_at_fn` on real binaries.
+//   C17 newbin <prog>        model: a fresh "::" index;  implementation: a debugger on progs/<prog> (not started)
+//   C17 insert <path> <i>    the i-th function of the program (path = demangled name split at top-level `::`,
+//                            generic arguments dropped), taken from `nm -C` — independent of the debugger
+//   C17 get <template>       implementation: indices of the functions in which `break <template>` put a breakpoint
+pub const BIN_PROGS: &[&str] = &["c17_names", "c17_names_v0"];
+
+/// split a demangled Rust path at top-level `::` (angle brackets nest), drop generic arguments (`::<..>`),
+/// drop a legacy hash component, unwrap `<T>` (inherent impl in v0 style)
+pub fn path_comps(name: &str) -> Vec<String> {
+    let mut comps = vec![]; let mut cur = String::new(); let mut depth = 0i32;
+    let b: Vec<char> = name.chars().collect();
+    let mut i = 0;
+    while i < b.len() {
+        let c = b[i];
+        if c == '<' { depth += 1; } else if c == '>' { depth -= 1; }
+        if depth == 0 && c == ':' && i + 1 < b.len() && b[i + 1] == ':' { comps.push(std::mem::take(&mut cur)); i += 2; continue; }
+        cur.push(c); i += 1;
+    }
+    comps.push(cur);
+    let mut out = vec![];
+    for c in comps {
+        if c.starts_with('<') && c.ends_with('>') && !c.contains(" as ") && out.is_empty() {
+            // `<krate::Type>` -> krate, Type
+            out.extend(path_comps(&c[1..c.len() - 1]));
+        } else if c.starts_with('<') && !out.is_empty() { /* generic arguments */ }
+        else if c.len() == 17 && c.starts_with('h') && c[1..].chars().all(|x| x.is_ascii_hexdigit()) { /* legacy hash */ }
+        else { out.push(c); }
+    }
+    out
+}
+
+/// (address, size, components) of the program's own functions, by address
+pub fn user_functions(prog: &str) -> Vec<(u64, u64, Vec<String>, String)> {
+    let path = crate::live::verif_root().join("progs").join(prog);
+    let o = std::process::Command::new("nm").args(["-C", "-S", "--defined-only"]).arg(&path).output().expect("nm");
+    let mut v = vec![];
+    for l in String::from_utf8_lossy(&o.stdout).lines() {
+        let mut it = l.splitn(4, ' ');
+        let (Some(a), Some(sz), Some(ty), Some(name)) = (it.next(), it.next(), it.next(), it.next()) else { continue };
+        if !matches!(ty, "t" | "T") || !name.contains("zq_") { continue; }
+        let (Ok(a), Ok(sz)) = (u64::from_str_radix(a, 16), u64::from_str_radix(sz, 16)) else { continue };
+        v.push((a, sz, path_comps(name), name.to_string()));
+    }
+    v.sort();
+    v
+}
+
+pub fn gen_bin_requests(rng: &mut Rng, out: &mut Out) -> Vec<String> {
+    let mut req = vec![];
+    for prog in BIN_PROGS {
+        let fns = user_functions(prog);
+        req.push(format!("C17 newbin {prog}"));
+        // the model is fed the components AS THE IMPLEMENTATION COMPUTES THEM (`from_mangled`: the demangled name
+        // split on every `::`, the legacy hash dropped); the oracle uses the bracket-aware components (`path_comps`)
+        for (i, (_, _, _, raw)) in fns.iter().enumerate() {
+            let naive: Vec<String> = raw.split("::").map(String::from)
+                .filter(|c| !(c.len() == 17 && c.starts_with('h') && c[1..].chars().all(|x| x.is_ascii_hexdigit()))).collect();
+            req.push(format!("C17 insert {} {}", enc_list(&naive, |s| enc_str(s)), i + 1));
+        }
+        let mut tpls: Vec<String> = vec![];
+        for (_, _, comps, _) in &fns {
+            // (components written with angle brackets — `<T as Trait>` — are not path templates a user can type)
+            if comps.iter().any(|c| c.contains('<')) { continue; }
+            for k in 1..=comps.len() { tpls.push(comps[comps.len() - k..].join("::")); }
+            // near misses: partial component, prefix, wrong module
+            let full = comps.join("::");
+            if full.len() > 3 { let c = rng.range(1, full.len() as u64 - 1) as usize; if full.is_char_boundary(c) { tpls.push(full[c..].to_string()); } }
+            if comps.len() > 1 { tpls.push(comps[..comps.len() - 1].join("::")); tpls.push(format!("nosuch::{}", comps[comps.len() - 1])); }
+        }
+        tpls.sort(); tpls.dedup();
+        // every suffix template is kept; near misses are sampled (each query costs a DWARF-wide search)
+        while tpls.len() > 28 { let k = rng.below(tpls.len() as u64) as usize; tpls.remove(k); }
+        for t in tpls { req.push(format!("C17 get {}", enc_str(&t))); out.count("bin.get", 1); }
+        out.count(&format!("bin.{prog}"), 1);
+    }
+    req
+}
+
+fn bin_session(lines: &[String], emit: &mut dyn FnMut(String)) {
+    use bugstalker::debugger::address::Address;
+    let prog = lines[0].split(' ').nth(2).unwrap_or("");
+    let fns = user_functions(prog);
+    let p = crate::live::verif_root().join("progs").join(prog);
+    let (_r, w) = os_pipe::pipe().unwrap();
+    bugstalker::debugger::rust::Environment::init(None);
+    let runner = bugstalker::debugger::process::Child::new(p.to_str().unwrap(), Vec::<String>::new(), None::<&std::path::Path>, w.try_clone().unwrap(), w);
+    let mut dbg = match runner.install().map_err(|e| e.to_string()).and_then(|pr| bugstalker::debugger::DebuggerBuilder::<bugstalker::debugger::NopHook>::new().build(pr).map_err(|e| e.to_string())) {
+        Ok(d) => d, Err(e) => { emit(format!("launch-failed {e}")); return; }
+    };
+    emit("ok".into());
+    let mut log: Vec<(Vec<String>, u64)> = vec![];
+    for line in &lines[1..] {
+        let t: Vec<&str> = line.split(' ').collect();
+        match t.as_slice() {
+            ["C17", "insert", _p, v] => {
+                // oracle side: the bracket-aware components of the v-th function (from `nm -C`), not the request's
+                let v: u64 = v.parse().unwrap();
+                if let Some(f) = fns.get(v as usize - 1) { log.push((f.2.clone(), v)); }
+                emit("ok".into());
+            }
+            ["C17", "get", n] => {
+                let tpl = dec_str(n);
+                let mut got: Vec<u64> = vec![];
+                let mut stray = 0;
+                if let Ok(views) = dbg.set_breakpoint_at_fn(&tpl) {
+                    for v in &views {
+                        let a = match v.addr { Address::Global(g) => u64::from(g), Address::Relocated(r) => u64::from(r).wrapping_sub(0x555555554000) };
+                        match fns.iter().position(|(s, n, _, _)| a >= *s && a < s + n) { Some(i) => got.push(i as u64 + 1), None => stray += 1 }
+                    }
+                }
+                let _ = dbg.remove_breakpoint_at_fn(&tpl);
+                got.sort();
+                let want = spec_get(&log, "::", &tpl);
+                if got != want || stray > 0 {
+                    // functions the two sides disagree on
+                    let differ: Vec<u64> = want.iter().filter(|i| !got.contains(i)).chain(got.iter().filter(|i| !want.contains(i))).copied().collect();
+                    // v0 demangled names carry generic arguments / `<Type>` segments: `from_mangled` splits them on every `::`
+                    let v0_brackets = prog.ends_with("_v0") && stray == 0 && !differ.is_empty()
+                        && differ.iter().all(|i| fns[*i as usize - 1].3.contains('<') && !got.contains(i));
+                    let key = if v0_brackets { "v0-mangled-function-path-split-inside-angle-brackets" } else { "function-template-selects-wrong-set" };
+                    emit(format!("!oracle {}", json!({"key": key, "what": format!("{prog}: `break {tpl}` placed breakpoints in functions {:?} (+{stray} outside the program's functions), the path-suffix specification says {:?}",
+                        got.iter().map(|i| fns[*i as usize - 1].2.join("::")).collect::<Vec<_>>(), want.iter().map(|i| fns[*i as usize - 1].2.join("::")).collect::<Vec<_>>()),
+                        "replay": {"prog": prog, "template": tpl}})));
+                }
+                emit(enc_list(&got, |v| v.to_string()));
+            }
+            _ => emit("bad-op".into()),
+        }
+    }
+}
+
 pub fn exec(req: &[String], out: &mut Out) {
+    // binary sessions run in worker processes; index sessions in-process
+    let mut i = 0;
+    let mut plain: Vec<String> = vec![];
+    let mut bins: Vec<Vec<String>> = vec![];
+    let mut order: Vec<(bool, usize, usize)> = vec![]; // (is_bin, index, len)
+    while i < req.len() {
+        let is_bin = req[i].starts_with("C17 newbin ");
+        let mut j = i + 1;
+        while j < req.len() && !(req[j].starts_with("C17 new ") || req[j].starts_with("C17 newbin ")) { j += 1; }
+        if is_bin { order.push((true, bins.len(), j - i)); bins.push(req[i..j].to_vec()); }
+        else { order.push((false, plain.len(), j - i)); plain.extend_from_slice(&req[i..j]); }
+        i = j;
+    }
+    let tmp = std::env::temp_dir().join(format!("bsv-c17-{}", std::process::id()));
+    std::fs::create_dir_all(&tmp).unwrap();
+    let results = crate::live::run_sessions(&bins, &tmp, "c17", crate::live::par_default(), 60, |s, emit| bin_session(s, emit));
+    let _ = std::fs::remove_dir_all(&tmp);
+    let mut plain_out = Out::new(&tmp.join("plain"));
+    exec_index(&plain, &mut plain_out);
+    let _ = std::fs::remove_dir_all(&tmp);
+    out.oracle_evals += plain_out.oracle_evals;
+    out.oracle_failures.extend(plain_out.oracle_failures);
+    for (k, v) in plain_out.stats { out.count(&k, v.as_u64().unwrap_or(0)); }
+    for s in plain_out.samples { out.sample(s); }
+    let mut pi = 0;
+    for (is_bin, idx, len) in order {
+        if is_bin {
+            let (lines, how) = &results[idx];
+            let mut answers = vec![];
+            for l in lines {
+                if let Some(j) = l.strip_prefix("!oracle ") {
+                    let v: serde_json::Value = serde_json::from_str(j).unwrap();
+                    out.oracle_fail(v["key"].as_str().unwrap(), v["what"].as_str().unwrap(), v["replay"].clone());
+                } else { answers.push(l.clone()); }
+            }
+            out.oracle_evals += answers.len() as u64;
+            if how != "ok" { out.oracle_fail("debugger-crashed-or-hung", &format!("worker ended with {how}"), json!({"session": bins[idx][0]})); }
+            for (k, l) in bins[idx].iter().enumerate() { out.pair(l.clone(), answers.get(k).cloned().unwrap_or_else(|| format!("worker-{how}"))); }
+        } else {
+            for k in 0..len { out.pair(plain_out.req[pi + k].clone(), plain_out.imp[pi + k].clone()); }
+            pi += len;
+        }
+    }
+}
+
+fn exec_index(req: &[String], out: &mut Out) {
     let mut delim = "::".to_string();
     let mut ix: PathSearchIndex<u64> = PathSearchIndex::new("::");
     let mut log: Vec<(Vec<String>, u64)> = vec![];
@@ -111,7 +290,12 @@ pub fn run(args: &[String]) {
     let mut out = Out::new(&a.out);
     let req = match &a.replay {
         Some(f) => read_lines(f),
-        None => { let mut rng = Rng::new(a.seed); gen_requests(&mut rng, a.n, &mut out) }
+        None => {
+            let mut rng = Rng::new(a.seed);
+            let mut r = gen_requests(&mut rng, a.n, &mut out);
+            r.extend(gen_bin_requests(&mut rng, &mut out));
+            r
+        }
     };
     exec(&req, &mut out);
     out.finish();
